@@ -127,17 +127,26 @@ func WorkerMain(id, tier string, seed int64, hbPath string) {
 		if f[0] == "q" {
 			break
 		}
-		// g <group> <from> <deadlineUnixSec> [only]
+		// g <group> <from> <deadlineUnixSec> [only|upto]
+		//   only: run case <from> alone; upto: run cases 0..<from> in order, report case <from> only
 		g, _ := strconv.Atoi(f[1])
 		from, _ := strconv.ParseInt(f[2], 10, 64)
 		dl, _ := strconv.ParseInt(f[3], 10, 64)
-		only := len(f) > 4 && f[4] == "only"
-		runGroup(c, tier, seed, g, from, dl, only, hb, enc, out)
+		mode := ""
+		if len(f) > 4 {
+			mode = f[4]
+		}
+		runGroup(c, tier, seed, g, from, dl, mode, hb, enc, out)
 		out.Flush()
 	}
 }
 
-func runGroup(c Check, tier string, seed int64, g int, from, deadline int64, only bool, hb *heartbeat, enc *json.Encoder, out *bufio.Writer) {
+func runGroup(c Check, tier string, seed int64, g int, from, deadline int64, mode string, hb *heartbeat, enc *json.Encoder, out *bufio.Writer) {
+	only := mode == "only"
+	target := int64(-1)
+	if mode == "upto" {
+		target, from = from, 0
+	}
 	done := wmsg{T: "done", G: g, Classes: map[string]int64{}, Counts: map[string]int64{}, SigN: map[string]int64{}, Complete: true}
 	keys := map[uint64]struct{}{}
 	var idx int64 = -1
@@ -176,7 +185,10 @@ func runGroup(c Check, tier string, seed int64, g int, from, deadline int64, onl
 		}
 		for _, v := range res.Viol {
 			done.SigN[v.Sig]++
-			if done.SigN[v.Sig] == 1 || only {
+			if target >= 0 && idx != target {
+				continue
+			}
+			if done.SigN[v.Sig] == 1 || only || target >= 0 {
 				var d json.RawMessage
 				if cs.Desc != nil {
 					d, _ = json.Marshal(cs.Desc())
@@ -189,7 +201,7 @@ func runGroup(c Check, tier string, seed int64, g int, from, deadline int64, onl
 				out.Flush()
 			}
 		}
-		if only {
+		if only || (target >= 0 && idx >= target) {
 			return false
 		}
 		return true
